@@ -7,8 +7,8 @@
 package vrt
 
 import (
-	"os"
 	"fmt"
+	"os"
 	"path/filepath"
 	"runtime"
 	"runtime/debug"
